@@ -127,7 +127,7 @@ Proof using All.
   cbn [soydoc_loop] in H. pose proof kw_lens. start H; sdfacts; try side2.
   all: cbn [soydoc_loop]; cbv zeta; sdreplay.
   all: try solve [exfalso; match goal with C2 : gen_isSpaceEOL ?z = false, C4 : gen_isEndOfLine ?z = true |- _ =>
-         unfold gen_isSpaceEOL in C2; rewrite C4, Bool.orb_true_r in C2; discriminate end].
+         unfold gen_isSpaceEOL, gen_isSpace, gen_isEndOfLine in C2, C4; lia end].
   all: cbn [fst snd]; try (eapply IH; first [exact H | side2]).
 Qed.
 End Det.
